@@ -71,12 +71,13 @@ def suite_analysis(seed, tier):
             P = np.packbits(A, axis=1)
             top = rng.choice([None, 1, 2, 5, 20])
             min_size = rng.choice([0, 0, 1, 2, 3])
-            # providers: array / file / file sequence, packed / unpacked
-            np.save(tmp / f"u{k}.npy", A)
-            np.save(tmp / f"p{k}.npy", P)
+            # providers: array / file / file sequence, packed / unpacked (the same paths are rewritten from case
+            # to case: what counts is the file as it is on disk now)
+            np.save(tmp / "u.npy", A)
+            np.save(tmp / "p.npy", P)
             cut = rng.randint(1, len(rows) - 1)
-            np.save(tmp / f"s{k}a.npy", P[:cut])
-            np.save(tmp / f"s{k}b.npy", P[cut:])
+            np.save(tmp / "sa.npy", P[:cut])
+            np.save(tmp / "sb.npy", P[cut:])
             # a second sequence: 2..12 parts whose names are NOT in lexicographic order in the order given
             # (descending names / unpadded part numbers / different directories): the order of the sequence
             # is the caller's, and it defines the global row index
@@ -88,17 +89,17 @@ def suite_analysis(seed, tier):
             seq2 = []
             for j in range(m):
                 if scheme == "descending":
-                    pth = tmp / f"t{k}-{chr(ord('z') - j)}.npy"
+                    pth = tmp / f"t-{chr(ord('z') - j)}.npy"
                 elif scheme == "unpadded":
-                    pth = tmp / f"t{k}-chunk-{j}.npy"
+                    pth = tmp / f"t-chunk-{j}.npy"
                 else:
-                    (tmp / f"d{k}-{(m - j):02d}").mkdir(exist_ok=True)
-                    pth = tmp / f"d{k}-{(m - j):02d}" / "part.npy"
+                    (tmp / f"d-{(m - j):02d}").mkdir(exist_ok=True)
+                    pth = tmp / f"d-{(m - j):02d}" / "part.npy"
                 np.save(pth, (P if packed2 else A)[bounds[j]:bounds[j + 1]])
                 seq2.append(pth)
             provs = [("array-unpacked", A, False), ("array-packed", P, True),
-                     ("file-unpacked", tmp / f"u{k}.npy", False), ("file-packed", tmp / f"p{k}.npy", True),
-                     ("fileseq-packed", [tmp / f"s{k}a.npy", tmp / f"s{k}b.npy"], True),
+                     ("file-unpacked", tmp / "u.npy", False), ("file-packed", tmp / "p.npy", True),
+                     ("fileseq-packed", [tmp / "sa.npy", tmp / "sb.npy"], True),
                      (f"fileseq-{scheme}-{m}-parts", seq2, packed2)]
             res = []
             for name, prov, packed in provs:
